@@ -166,3 +166,27 @@ Proof.
   rewrite !bind_app. destruct (cx (gather [] pop r) (gather 0%Q fs r) (gather 0%Q fr r) ds2) as [[c ds3]|]; [|reflexivity].
   rewrite !bind_app. destruct (flip_mutation c _ ds3) as [[o ds4]|]; [|reflexivity]. rewrite ret_app. reflexivity.
 Qed.
+
+(* ---------- hence, about the optimizers' own methods: every trial vector is inside the box ---------- *)
+From TF Require Import DEOpsProofs.
+Theorem src_DE_trial_in_box (mf : list Q -> list Q -> list (list Q) -> Q -> M (list Q)) best pop l r cur F CR ds t ds' :
+  box_ok l r -> length cur = length l ->
+  py_DE_get_new_individ_g mf best pop l r cur F CR ds = Some (t, ds') -> in_box l r t.
+Proof.
+  intros Hb Hc. rewrite code_DE_get_new_individ_g, !bind_app.
+  destruct (mf cur best pop F ds) as [[m ds1]|]; [|discriminate].
+  rewrite !bind_app. destruct (binomial cur m CR ds1) as [[c ds2]|] eqn:E; [|discriminate].
+  rewrite ret_app. intro H. inversion H; subst.
+  apply clamp_in_box; auto. rewrite (binomial_length _ _ _ _ _ _ E). auto.
+Qed.
+
+Theorem src_SHADE_trial_in_box pop pbest archive l r cur F CR ds t ds' :
+  valid_draws ds -> (0 < length pop)%nat ->
+  uniform_rows (length cur) pop -> uniform_rows (length cur) archive ->
+  Forall (fun v => (0 <= v < Z.of_nat (length pop))%Z) pbest ->
+  in_box l r cur ->
+  py_SHADE_get_new_individ_g pop pbest archive l r cur F CR ds = Some (t, ds') -> in_box l r t.
+Proof.
+  intros Hv Hp Hu Ha Hpb Hc. rewrite (code_SHADE_get_new_individ_g pop pbest archive l r cur F CR ds Hv Hp Hu Ha Hpb).
+  apply shade_trial_in_box. exact Hc.
+Qed.
